@@ -927,11 +927,24 @@ func (s *symExec) forStmt(x *ast.ForStmt) {
 		obj  types.Object
 		init *Poly
 		st   *ast.AssignStmt
+		inc  int64 // for v++ / v--
 	}
 	var accs []bodyAcc
 	keep := map[types.Object]bool{}
 	if !hasContinue(x.Body) {
 		for _, bs := range x.Body.List {
+			if id, isInc := bs.(*ast.IncDecStmt); isInc {
+				obj := s.assignObj(id.X)
+				if obj != nil && isIntT(obj.Type()) && countAssigns(s, x.Body, obj) == 1 && !(x.Post != nil && assignedIn(s.p, x.Post, obj)) {
+					d := int64(1)
+					if id.Tok == token.DEC {
+						d = -1
+					}
+					accs = append(accs, bodyAcc{obj: obj, init: s.atomFor(obj), inc: d})
+					keep[obj] = true
+				}
+				continue
+			}
 			as, ok := bs.(*ast.AssignStmt)
 			if !ok || len(as.Lhs) != 1 || (as.Tok != token.ADD_ASSIGN && as.Tok != token.SUB_ASSIGN) {
 				continue
@@ -943,13 +956,18 @@ func (s *symExec) forStmt(x *ast.ForStmt) {
 			if !s.loopInvariant(as.Rhs[0], x) {
 				continue
 			}
-			accs = append(accs, bodyAcc{obj, s.atomFor(obj), as})
+			accs = append(accs, bodyAcc{obj: obj, init: s.atomFor(obj), st: as})
 			keep[obj] = true
 		}
 	}
 	// havoc everything assigned in the body
 	s.havocAssigned(x.Body, keep)
 	for _, a := range accs {
+		if a.st == nil {
+			s.env[a.obj] = a.init.add(K.mul(polyInt(a.inc)))
+			ind[a.obj] = true
+			continue
+		}
 		// evaluate the step silently (no hooks, no call log): the statement itself is lifted again in the body
 		oc, oi, nc := s.onCall, s.onIndex, len(s.calls)
 		s.onCall, s.onIndex = nil, nil
@@ -1009,7 +1027,7 @@ func (s *symExec) forStmt(x *ast.ForStmt) {
 		ind[st.obj] = true
 	}
 	if x.Cond != nil {
-		s.conds = append(s.conds, s.cond(x.Cond))
+		s.pushCond(x.Cond, false)
 	}
 	s.loopDepth++
 	s.block(x.Body.List)
